@@ -26,11 +26,16 @@ type c03Case struct {
 	// Hole: the program image has a second block (two more words) that starts this many
 	// words behind the end of the first one: accesses can span image, hole and image
 	Hole int `json:"hole,omitempty"`
+	// Data: the image has a further block of 4 words at 0x3000 that is data (never executed;
+	// stores into it are ordinary stores): Init.DataImage names it.
+	Data bool `json:"data_block,omitempty"`
 }
 
 const (
 	c03Base = 0x1000
 	c03Data = 0x8000
+	// a block of the image that holds data
+	c03DataBlock = 0x3000
 )
 
 func c03Alphabet() []uint32 {
@@ -76,6 +81,9 @@ func c03Run(c c03Case, monitor func(m *emu.Machine) *eng.Fail) (f *eng.Fail, ste
 	if c.Hole > 0 {
 		end := segs[0].Base + uint64(4*len(segs[0].Words))
 		segs = append(segs, prog.Seg{Base: end + uint64(4*c.Hole), Words: []uint32{prog.Addi(3, 3, 0x7d1), prog.Addi(4, 4, 0x5d5)}})
+	}
+	if c.Data {
+		segs = append(segs, prog.Seg{Base: c03DataBlock, Words: []uint32{prog.Addi(3, 3, 0x7d1), prog.Addi(4, 4, 0x5d5), prog.Addi(7, 8, 0x123), prog.Sd(9, 10, 0x6a8)}})
 	}
 	for _, w := range c.Words {
 		c.Text = append(c.Text, prog.Dis(w))
@@ -150,7 +158,7 @@ func c03Enumerate(r *eng.Run, f func(c c03Case)) {
 func init() {
 	checks["C03"] = eng.Check{
 		Hist: true,
-		Rule: "every RV64IMA program of <=3 (thorough 4) instructions over a 36-word alphabet built to collide (three writers of x1, negative immediates, mul/div, sd/sw/sh/sb to overlapping offsets of one base, loads inside one store / across two stores / across a store and never-written memory / inside the image / across the image start, addw (32-bit register read) followed by a 64-bit reader, amoadd.w, lr.w, sc.w, sc.w/amoswap.w using ONE register as address and data, sd/sw/amoswap.w storing x0, add/ld/sd/jalr/amoadd.w whose destination is their own source or base register, beq forward, jal backward, jalr to a register, pseudo-jump jal +4, csrrw) followed by 4 nops, through the real pipeline (elf block store -> parser -> deps.NewCode -> emulator with Overlay(Bytes(image), Sparse)); run for <=8 steps from 4 initial states (small values; full 64-bit values with an indirect jump to a mid-instruction address; pre-loaded registers/memory with a jump outside the code; data area above 2^32) supplied by the state provider. After every step pc, every register the emulator knows, every written or supplied memory byte and the step report (register/memory reads and writes with values, as sets) are compared with the reference interpreter; Step must fail exactly when pc is not an instruction start. Plus 8 three-instruction programs whose middle instruction stores to / loads from the last bytes of the address space (ending exactly at 2^64, or wrapping around it). Plus 6 programs on an image of two blocks with a one-word hole between them (loads crossing image, unknown memory and image). PROC conformance: 8 programs (store/load back, image read and store over the image, supplied memory partially overwritten, x0 stores, M and A instructions) emulated by the REAL BINARY under a pseudo-terminal (entry, e, one step per instruction, every state prompt answered from the initial state; also with the emulation left and started again): the register view and the memory view read off the screen must show the reference machine's registers and memory. states = program x initial state; transitions = steps executed. Non-trivial = run of >=3 steps.",
+		Rule: "every RV64IMA program of <=3 (thorough 4) instructions over a 36-word alphabet built to collide (three writers of x1, negative immediates, mul/div, sd/sw/sh/sb to overlapping offsets of one base, loads inside one store / across two stores / across a store and never-written memory / inside the image / across the image start, addw (32-bit register read) followed by a 64-bit reader, amoadd.w, lr.w, sc.w, sc.w/amoswap.w using ONE register as address and data, sd/sw/amoswap.w storing x0, add/ld/sd/jalr/amoadd.w whose destination is their own source or base register, beq forward, jal backward, jalr to a register, pseudo-jump jal +4, csrrw) followed by 4 nops, through the real pipeline (elf block store -> parser -> deps.NewCode -> emulator with Overlay(Bytes(image), Sparse)); run for <=8 steps from 4 initial states (small values; full 64-bit values with an indirect jump to a mid-instruction address; pre-loaded registers/memory with a jump outside the code; data area above 2^32) supplied by the state provider. After every step pc, every register the emulator knows, every written or supplied memory byte and the step report (register/memory reads and writes with values, as sets) are compared with the reference interpreter; Step must fail exactly when pc is not an instruction start. Plus 8 three-instruction programs whose middle instruction stores to / loads from the last bytes of the address space (ending exactly at 2^64, or wrapping around it). Plus 6 programs on an image of two blocks with a one-word hole between them (loads crossing image, unknown memory and image). Plus save / clobber-a-part / restore on a DATA block of the image: a value loaded from image data is stored back over a narrower store into the same place (every width pair 2,4,8 over 1,2,4 and every offset; also another value restored; also without the narrower store) and read back. PROC conformance: 8 programs (store/load back, image read and store over the image, supplied memory partially overwritten, x0 stores, M and A instructions) emulated by the REAL BINARY under a pseudo-terminal (entry, e, one step per instruction, every state prompt answered from the initial state; also with the emulation left and started again): the register view and the memory view read off the screen must show the reference machine's registers and memory. states = program x initial state; transitions = steps executed. Non-trivial = run of >=3 steps.",
 		Assumptions: []string{
 			"programs storing into their own image are skipped (property excludes self-modification)",
 			"the step report is compared as sets; a register read at several widths may be reported at any of them",
@@ -208,6 +216,42 @@ func init() {
 					if f != nil {
 						r.Report(f)
 						r.Outcome(f.Sig)
+					}
+				}
+			}
+			// data inside the image: save / clobber a part / restore. A value loaded from image data is
+			// stored back over a narrower store into the same place (every width pair and offset), then
+			// read back; also with a different value restored, and without the narrower store.
+			for _, in := range c03Inits[:2] {
+				in.DataImage = [][2]uint64{{c03DataBlock, 16}}
+				ld := map[int]func(rd, rs1 uint32, off int64) uint32{2: prog.Lh, 4: prog.Lw, 8: prog.Ld}
+				st := map[int]func(rs2, rs1 uint32, off int64) uint32{1: prog.Sb, 2: prog.Sh, 4: prog.Sw, 8: prog.Sd}
+				for _, wide := range []int{2, 4, 8} {
+					for _, narrow := range []int{1, 2, 4} {
+						for off := 0; narrow < wide && off+narrow <= wide; off += narrow {
+							for variant := 0; variant < 3; variant++ {
+								ws := []uint32{prog.Lui(24, 3), ld[wide](7, 24, 0), st[narrow](1, 24, int64(off)), st[wide](7, 24, 0), prog.Ld(8, 24, 0)}
+								switch variant {
+								case 1: // another value is restored
+									ws[3] = st[wide](2, 24, 0)
+								case 2: // no narrower store before
+									ws[2] = prog.Nop
+								}
+								c := c03Case{Words: ws, Init: in, Steps: 6, Entry: c03Base, Data: true}
+								f, steps, skipped := c03Run(c, nil)
+								r.Eval(1)
+								r.State(1)
+								r.Trace(1)
+								r.Trans(steps)
+								if skipped == "" && steps >= 3 {
+									r.Nontrivial(1)
+								}
+								if f != nil {
+									r.Report(f)
+									r.Outcome(f.Sig)
+								}
+							}
+						}
 					}
 				}
 			}
